@@ -11,7 +11,7 @@
 From Coq Require Import List ZArith Bool Lia.
 From RecordUpdate Require Import RecordUpdate.
 From GB Require Import Model.Allowance Model.Batcher Model.Shared Model.Store Proofs.Tactics Proofs.SharedInv Proofs.StoreInv.
-From GB Require Import Gen.Facts Model.Lease Proofs.LeaseProofs.
+From GB Require Import Gen.Facts Model.Lease Proofs.LeaseProofs Proofs.PaceInv.
 Import ListNotations.
 Open Scope Z_scope.
 
@@ -57,6 +57,48 @@ Theorem C09_invariants_hold_under_faults : forall c cfgs ls y,
 Proof. intros c cfgs ls y R. exact (yinv_run c ls _ _ (yinv_init c cfgs) R). Qed.
 Print Assumptions C09_invariants_hold_under_faults.
 
+(* the pace on which the property's bound rests ("partitions x (MaxInterval + lease-call latency)"): between two
+   iterations the loop sleeps rand.Intn(MaxInterval) ms, so in every reachable state a loop that has something to do -
+   fewer partitions counted than wanted and one it does not count (pollable), a stop request, a re-provisioning
+   request - went to sleep at most MaxInterval - 1 ms ago, whatever the outcomes of the earlier calls were *)
+Theorem C09_loop_acts_within_max_interval : forall c r sh s since,
+  sreachable c r sh s -> s_loop s = STop since -> must_act s = true ->
+  since <= s_now s <= since + (eff_maxint c - 1) * 1000000.
+Proof. exact loop_acts_within_max_interval. Qed.
+Print Assumptions C09_loop_acts_within_max_interval.
+
+(* ... time cannot pass that deadline ... *)
+Theorem C09_time_stops_at_the_deadline : forall c s t s' o since,
+  s_loop s = STop since -> must_act s = true -> sstep c s (STime t) = Some (s', o) ->
+  t <= since + (eff_maxint c - 1) * 1000000 /\ s_loop s' = STop since.
+Proof. exact time_stops_at_the_deadline. Qed.
+Print Assumptions C09_time_stops_at_the_deadline.
+
+(* ... and what is enabled then is the next lease request *)
+Theorem C09_due_poll_is_enabled : forall c s since,
+  s_loop s = STop since -> pollable s = true ->
+  exists p s', sstep c s (SILease p) = Some (s', [SOLmLease p]) /\ s_loop s' = SCalling p (s_now s).
+Proof. exact due_poll_is_enabled. Qed.
+Print Assumptions C09_due_poll_is_enabled.
+
+(* the guard is not vacuous the other way round: with nothing due any amount of time may pass *)
+Theorem C09_idle_loop_lets_time_pass : forall c s t since,
+  s_loop s = STop since -> must_act s = false -> s_now s <= t -> expiries_ok c s t = true ->
+  exists s', sstep c s (STime t) = Some (s', []) /\ s_loop s' = STop t.
+Proof. exact idle_loop_lets_time_pass. Qed.
+Print Assumptions C09_idle_loop_lets_time_pass.
+
+(* non-vacuity of the pace theorems: demand at 0 with MaxInterval 100: 99 ms may pass, 100 ms may not; a refused
+   call later the same holds again (no back-off) *)
+Example C09_pace_nonvacuous :
+  let c := mkSCfg V2 1 100 true in
+  let pre := [SAStart true; SILoopProvision; SICreateRet; SAGiveMe 1] in
+  (exists s o, srun c (sinit c 0 1) (pre ++ [STime 99000000]) = Some (s, o) /\ must_act s = true)
+  /\ srun c (sinit c 0 1) (pre ++ [STime 100000000]) = None
+  /\ (exists s o, srun c (sinit c 0 1) (pre ++ [STime 99000000; SILease 0; SILeaseRet 0; STime 198000000]) = Some (s, o))
+  /\ srun c (sinit c 0 1) (pre ++ [STime 99000000; SILease 0; SILeaseRet 0; STime 198000001]) = None.
+Proof. vm_compute. repeat split; eexists; eexists; repeat split. Qed.
+
 (* the blob lease manager turns every failure of AcquireLease - the lease already held by a peer, any other service
    code, an error that is no service error at all - into an event and a zero lease time; only a success is a lease
    (Model/Lease.v, compared with the real managers of both generations over all SDK service codes on every run) *)
@@ -78,6 +120,7 @@ Example C09_nonvacuous :
   exists y, yrun ex_c (yinit ex_c [(0, 1); (0, 1)])
     [YInst 0 (SAProvision true true); YInst 1 (SAProvision true true); YInst 0 (SAStart true); YInst 1 (SAStart true);
      YInst 1 (SAGiveMe 1); YInst 1 (SILease 0); YDecide 1; YReturn 1;
+     YTime 14700000000;
      YInst 0 (SAGiveMe 1); YInst 0 (SILease 0); YDecide 0; YReturn 0;
      YInst 0 (SILease 0); YFault 0; YReturn 0;
      YTime (15 * sec); YInst 1 (SIExpire 0);
